@@ -21,6 +21,7 @@ import (
 	"reflect"
 	"runtime"
 	"runtime/debug"
+	"sync/atomic"
 	"time"
 )
 
@@ -62,6 +63,9 @@ type Sched struct {
 	Log       []string
 }
 
+var freeRunning int64
+var skipFreeWait bool
+
 // S is the active execution (nil: shims fall through to real primitives).
 var S *Sched
 
@@ -73,6 +77,20 @@ func Active() bool { return S != nil && !S.aborted }
 func Run(prefix []int, maxPoints int, body func()) *Sched {
 	if S != nil {
 		panic("vsched: nested Run")
+	}
+	// A goroutine spawned while no execution was active (e.g. the clean-up goroutine of a cache built by a
+	// sequential phase; it ends at its first virtual sleep) must not reach a shim while this execution is active:
+	// it would report its point under the identity of the running thread. Wait for such goroutines to end.
+	if !skipFreeWait {
+		deadline := time.Now().Add(2 * time.Second)
+		for atomic.LoadInt64(&freeRunning) > 0 {
+			if time.Now().After(deadline) {
+				skipFreeWait = true // long-lived free goroutines exist in this process: waiting is pointless
+				break
+			}
+			runtime.Gosched()
+			time.Sleep(20 * time.Microsecond)
+		}
 	}
 	s := &Sched{prefix: prefix, finished: make(chan struct{}), MaxPoints: maxPoints}
 	S = s
@@ -237,7 +255,13 @@ func Go(f func()) { GoNamed("", false, f) }
 func GoNamed(name string, harness bool, f func()) *Thread {
 	s := S
 	if s == nil {
-		go f()
+		// free-running goroutine; counted until it ends, so that a later controlled execution can wait for
+		// goroutines that were spawned just before it and have not yet run to their end (see Run)
+		atomic.AddInt64(&freeRunning, 1)
+		go func() {
+			defer atomic.AddInt64(&freeRunning, -1)
+			f()
+		}()
 		return nil
 	}
 	if s.aborted {
